@@ -120,9 +120,17 @@ def run_logged(exe, lines, timeout_case=10, data=True, extra_env=None, preload=T
         if extra_env:
             env.update(extra_env)
         part = lines[pos:]
+
+        def pre():
+            # a harness that runs away (a reader that never ends) must not exhaust the machine
+            import resource
+            try:
+                resource.setrlimit(resource.RLIMIT_AS, (12 << 30, 12 << 30))
+            except Exception:
+                pass
         try:
             p = subprocess.run([exe], input=("\n".join(part) + "\n").encode(), stdout=subprocess.PIPE,
-                               stderr=subprocess.PIPE, env=env, timeout=timeout_case * 4 + 600)
+                               stderr=subprocess.PIPE, env=env, timeout=timeout_case * 4 + 600, preexec_fn=pre)
             out = p.stdout.decode("utf-8", "replace").split("\n")
             rc = p.returncode
         except subprocess.TimeoutExpired as e:
@@ -166,3 +174,28 @@ def run_lines_bigstack(exe, lines, timeout=900):
     if out and out[-1] == "":
         out.pop()
     return p.returncode, out, p.stderr.decode("utf-8", "replace")
+
+
+def run_tool_limited(argv, stdin=b"", timeout=60, env=None, cwd=None, max_output=64 << 20, max_memory=8 << 30):
+    """Like checklib.run_tool, but a tool that runs away (endless output, endless allocation) cannot take
+    the check down with it: stdout goes to a scratch file, every file the tool writes is limited to
+    max_output bytes (RLIMIT_FSIZE -> SIGXFSZ) and its address space to max_memory.
+    Returns (status, stdout, stderr) with status = exit code, -signal or 'timeout'."""
+    import resource
+    import tempfile
+
+    def pre():
+        try:
+            resource.setrlimit(resource.RLIMIT_FSIZE, (max_output, max_output))
+            resource.setrlimit(resource.RLIMIT_AS, (max_memory, max_memory))
+        except Exception:
+            pass
+    with tempfile.TemporaryFile(dir=scratch_dir()) as out, tempfile.TemporaryFile(dir=scratch_dir()) as err:
+        try:
+            p = subprocess.run(argv, input=stdin, stdout=out, stderr=err, timeout=timeout, env=env, cwd=cwd, preexec_fn=pre)
+            status = p.returncode
+        except subprocess.TimeoutExpired:
+            status = "timeout"
+        out.seek(0)
+        err.seek(0)
+        return status, out.read(max_output + 1), err.read(1 << 20)
